@@ -185,6 +185,7 @@ class Facts:
         self.hir = {}
         self.crates = {}
         self.children = {}    # parent path -> [Body] (closures/coroutines)
+        self.promoted = {}    # "<owner path>::promoted[n]" -> Body of the promoted constant
         seen_crates = set()
         for f in sorted(glob.glob(os.path.join(fdir, "*.jsonl"))):
             base = os.path.basename(f).split(".")
@@ -205,6 +206,9 @@ class Facts:
                         self.by_npath.setdefault(b.npath, []).append(b)
                         if b.parent:
                             self.children.setdefault(b.parent, []).append(b)
+                    elif t == "promoted":
+                        # promoted constant body `<owner>::promoted[n]` (e.g. `&Enum::Variant`, `&[]`)
+                        self.promoted[r["path"]] = Body(r, cname)
                     elif t == "adt":
                         self.adts[r["path"]] = r
                     elif t == "impl":
